@@ -85,17 +85,19 @@ func (d *Client) UnmarshalBinary(data []byte) error {
 
 // Message is a storable representation of an MQTT message (specifically publish).
 type Message struct {
-	Properties  MessageProperties   `json:"properties"`              // -
-	Payload     []byte              `json:"payload"`                 // the message payload (if retained)
-	T           string              `json:"t,omitempty"`             // the data type
-	ID          string              `json:"id,omitempty" storm:"id"` // the storage key
-	Client      string              `json:"client,omitempty"`        // the client id the message is for
-	Origin      string              `json:"origin,omitempty"`        // the id of the client who sent the message
-	TopicName   string              `json:"topic_name,omitempty"`    // the topic the message was sent to (if retained)
-	FixedHeader packets.FixedHeader `json:"fixedheader"`             // the header properties of the message
-	Created     int64               `json:"created,omitempty"`       // the time the message was created in unixtime
-	Sent        int64               `json:"sent,omitempty"`          // the last time the message was sent (for retries) in unixtime (if inflight)
-	PacketID    uint16              `json:"packet_id,omitempty"`     // the unique id of the packet (if inflight)
+	Properties      MessageProperties   `json:"properties"`                 // -
+	Payload         []byte              `json:"payload"`                    // the message payload (if retained)
+	T               string              `json:"t,omitempty"`                // the data type
+	ID              string              `json:"id,omitempty" storm:"id"`    // the storage key
+	Client          string              `json:"client,omitempty"`           // the client id the message is for
+	Origin          string              `json:"origin,omitempty"`           // the id of the client who sent the message
+	TopicName       string              `json:"topic_name,omitempty"`       // the topic the message was sent to (if retained)
+	FixedHeader     packets.FixedHeader `json:"fixedheader"`                // the header properties of the message
+	Created         int64               `json:"created,omitempty"`          // the time the message was created in unixtime
+	Expiry          int64               `json:"expiry,omitempty"`           // the time the message expires in unixtime (0: never)
+	ProtocolVersion byte                `json:"protocol_version,omitempty"` // mqtt protocol version of the message's publisher
+	Sent            int64               `json:"sent,omitempty"`             // the last time the message was sent (for retries) in unixtime (if inflight)
+	PacketID        uint16              `json:"packet_id,omitempty"`        // the unique id of the packet (if inflight)
 }
 
 // MessageProperties contains a limited subset of mqtt v5 properties specific to publish messages.
@@ -127,12 +129,14 @@ func (d *Message) UnmarshalBinary(data []byte) error {
 // ToPacket converts a storage.Message to a standard packet.
 func (d *Message) ToPacket() packets.Packet {
 	pk := packets.Packet{
-		FixedHeader: d.FixedHeader,
-		PacketID:    d.PacketID,
-		TopicName:   d.TopicName,
-		Payload:     d.Payload,
-		Origin:      d.Origin,
-		Created:     d.Created,
+		FixedHeader:     d.FixedHeader,
+		PacketID:        d.PacketID,
+		TopicName:       d.TopicName,
+		Payload:         d.Payload,
+		Origin:          d.Origin,
+		Created:         d.Created,
+		Expiry:          d.Expiry,
+		ProtocolVersion: d.ProtocolVersion,
 		Properties: packets.Properties{
 			PayloadFormat:          d.Properties.PayloadFormat,
 			PayloadFormatFlag:      d.Properties.PayloadFormatFlag,
